@@ -6,8 +6,12 @@
      Pattern[U]      :: Disjunction[?U]
      Disjunction[U]  :: Alternative[?U]  |  Alternative[?U] `|` Disjunction[?U]
      Alternative[U]  :: [empty]  |  Alternative[?U] Term[?U]
-     Term[U]         :: Atom[?U]  |  Atom[?U] Quantifier
-                        (Annex B, [~U]:  ExtendedAtom | ExtendedAtom Quantifier)
+     Term[U]         :: Assertion[?U]  |  Atom[?U]  |  Atom[?U] Quantifier
+        Annex B [~U]:   QuantifiableAssertion Quantifier | Assertion[~U] | ExtendedAtom Quantifier | ExtendedAtom
+     Assertion[U]    :: `^` | `$` | `(?=` Disjunction `)` | `(?!` Disjunction `)` | `(?<=` Disjunction `)` | `(?<!` Disjunction `)`
+        Annex B [~U]:   `^` | `$` | QuantifiableAssertion | `(?<=` Disjunction `)` | `(?<!` Disjunction `)`
+        (`\b` `\B` are not in the fragment)
+     QuantifiableAssertion :: `(?=` Disjunction[~U] `)` | `(?!` Disjunction[~U] `)`
      Quantifier      :: QuantifierPrefix  |  QuantifierPrefix `?`
      QuantifierPrefix:: `*` | `+` | `?`
      Atom[U]         :: PatternCharacter | `.` | `(` Disjunction[?U] `)` | `(?:` Disjunction[?U] `)`
@@ -25,6 +29,7 @@ Definition g_caret := 94. Definition g_dollar := 36. Definition g_backslash := 9
 Definition g_star := 42. Definition g_plus := 43. Definition g_question := 63. Definition g_lparen := 40.
 Definition g_rparen := 41. Definition g_lbracket := 91. Definition g_rbracket := 93. Definition g_lbrace := 123.
 Definition g_rbrace := 125. Definition g_bar := 124. Definition g_colon := 58.
+Definition g_equals := 61. Definition g_bang := 33. Definition g_less := 60.
 
 Definition syntax_character (c : N) : bool :=
   existsb (N.eqb c) [g_caret; g_dollar; g_backslash; g_dot; g_star; g_plus; g_question; g_lparen; g_rparen;
@@ -51,8 +56,19 @@ with Alternative (u : bool) : list N -> Prop :=
 | A_empty : Alternative u []
 | A_term a t : Alternative u a -> Term u t -> Alternative u (a ++ t)
 with Term (u : bool) : list N -> Prop :=
+| T_assertion a : Assertion u a -> Term u a
+| T_qassertion_quant a q : u = false -> QuantifiableAssertion u a -> Quantifier q -> Term u (a ++ q)   (* Annex B *)
 | T_atom a : Atom u a -> Term u a
 | T_atom_quant a q : Atom u a -> Quantifier q -> Term u (a ++ q)
+with Assertion (u : bool) : list N -> Prop :=
+| As_caret : Assertion u [g_caret]
+| As_dollar : Assertion u [g_dollar]
+| As_lookahead a : QuantifiableAssertion u a -> Assertion u a
+| As_lookbehind d : Disjunction u d -> Assertion u (g_lparen :: g_question :: g_less :: g_equals :: d ++ [g_rparen])
+| As_neg_lookbehind d : Disjunction u d -> Assertion u (g_lparen :: g_question :: g_less :: g_bang :: d ++ [g_rparen])
+with QuantifiableAssertion (u : bool) : list N -> Prop :=   (* the two look-aheads *)
+| QA_lookahead d : Disjunction u d -> QuantifiableAssertion u (g_lparen :: g_question :: g_equals :: d ++ [g_rparen])
+| QA_neg_lookahead d : Disjunction u d -> QuantifiableAssertion u (g_lparen :: g_question :: g_bang :: d ++ [g_rparen])
 with Atom (u : bool) : list N -> Prop :=
 | At_char c : pattern_char u c = true -> Atom u [c]
 | At_dot : Atom u [g_dot]
@@ -64,5 +80,8 @@ Definition Pattern (u : bool) (s : list N) : Prop := Disjunction u s.
 Scheme Disjunction_mind := Minimality for Disjunction Sort Prop
   with Alternative_mind := Minimality for Alternative Sort Prop
   with Term_mind := Minimality for Term Sort Prop
+  with Assertion_mind := Minimality for Assertion Sort Prop
+  with QuantifiableAssertion_mind := Minimality for QuantifiableAssertion Sort Prop
   with Atom_mind := Minimality for Atom Sort Prop.
-Combined Scheme grammar_mutind from Disjunction_mind, Alternative_mind, Term_mind, Atom_mind.
+Combined Scheme grammar_mutind from Disjunction_mind, Alternative_mind, Term_mind, Assertion_mind,
+  QuantifiableAssertion_mind, Atom_mind.
